@@ -11,29 +11,29 @@ import (
 
 // Exec verifies one function: it symbolically executes the body and collects obligations.
 type Exec struct {
-	W      *World
-	Fn     *FuncInfo
-	C      *Contract
-	Obls   []*Obligation
-	ids    int
-	entry  *St
-	entryNames map[string]*Val
-	frameAll   map[string]bool    // whole-field / ghost modifies
-	frameLocs  map[string][]*Term // field key -> allowed locations (entry-state terms)
-	pure   bool // spec-function mode: no obligations, no heap writes
-	heapVars map[string]*Term // pure mode: field key -> bound array variable
-	specFuel *Term
-	specSCC  map[string]bool
-	canaryDone bool
-	ncanary    int
-	nframes int
-	Notes  []string
-	lemmaAxioms []*Term
-	inst     string // type instance of a generic function under verification ("jsonNode")
-	derived  *Contract // "derived from": the source contract whose call stands for the body
-	measure0 []measureComp
+	W             *World
+	Fn            *FuncInfo
+	C             *Contract
+	Obls          []*Obligation
+	ids           int
+	entry         *St
+	entryNames    map[string]*Val
+	frameAll      map[string]bool    // whole-field / ghost modifies
+	frameLocs     map[string][]*Term // field key -> allowed locations (entry-state terms)
+	pure          bool               // spec-function mode: no obligations, no heap writes
+	heapVars      map[string]*Term   // pure mode: field key -> bound array variable
+	specFuel      *Term
+	specSCC       map[string]bool
+	canaryDone    bool
+	ncanary       int
+	nframes       int
+	Notes         []string
+	lemmaAxioms   []*Term
+	inst          string    // type instance of a generic function under verification ("jsonNode")
+	derived       *Contract // "derived from": the source contract whose call stands for the body
+	measure0      []measureComp
 	NoTermination bool
-	prodSubj []*Val // closure producing a stream: the subjects (its YieldsArgs at entry)
+	prodSubj      []*Val // closure producing a stream: the subjects (its YieldsArgs at entry)
 }
 
 func (x *Exec) nextID() int { x.ids++; return x.ids }
